@@ -402,6 +402,13 @@ class Proc(Item):
             rv = self.resvar()
             if rv is not None:
                 out += ["  " + l for l in rv.lines(st, f"{site}:result")]
+        if self.kind == "function" and self.rettype:
+            # the type stands in the prefix: further attributes of the result can only come from attribute statements
+            rname = self.result or self.name
+            for a in self.result_attrs:
+                _, stmt, eff = ATTRS[a]
+                sep = " :: " if "::" in st.pick(f"{site}:result-attr-stmt-form:{a}", ["a :: x", "a x"]) else " "
+                out.append("  " + st.kw(stmt) + sep + st.ref(rname) + eff.get("shape", ""))
         for i, d in enumerate(self.decls):
             out += ["  " + l for l in d.lines(st, f"{site}:local{i}")]
         n_enum = 0
@@ -446,7 +453,7 @@ class Proc(Item):
         sub = path + (f"proc:{self.name.lower()}",)
         for a in self.args:
             if isinstance(a, str):
-                out.append(dict(path="/".join(sub), kind="variable", name=a.lower(), role="arg",
+                out.append(dict(path="/".join(sub), kind="variable", name=a.lower(), role="arg", attribs=[], shape="",
                                 vartype="integer" if a[0].lower() in "ijklmn" else "real"))
             else:
                 a.role = "arg"
@@ -455,7 +462,9 @@ class Proc(Item):
             if self.rettype:
                 exp = TYPE_SPEC[self.rettype][2]
                 out.append(dict(path="/".join(sub), kind="variable", name=(self.result or self.name).lower(), role="result",
-                                vartype=exp["vartype"], varkind=exp.get("varkind"), strlen=exp.get("strlen"), proto=exp.get("proto")))
+                                vartype=exp["vartype"], varkind=exp.get("varkind"), strlen=exp.get("strlen"), proto=exp.get("proto"),
+                                attribs=sorted(ATTRS[a][2]["attr"] for a in self.result_attrs if "attr" in ATTRS[a][2]),
+                                shape=next((ATTRS[a][2]["shape"] for a in self.result_attrs if "shape" in ATTRS[a][2]), "")))
             else:
                 out += self.resvar().records(sub)
         for d in self.decls:
